@@ -839,4 +839,177 @@ theorem two_rollouts_share (j : Nat) : ∀ (ls : List Label) (s s' : JS), HeldBy
     · rename_i s1 h1
       exact ih s1 s' (held_step j s l s1 hh (hall l List.mem_cons_self) h1).1 (fun x hx => hall x (List.mem_cons_of_mem _ hx)) h
 
+
+/-! ### Released means restored -/
+
+/-- `k` fault-free rounds: the clock moves, the TrafficRouting is reconciled -/
+def quiet : Nat → List Label
+  | 0 => []
+  | k + 1 => .tick :: .tr :: quiet k
+
+/-- the TrafficRouting reports Healthy, nobody holds it, and (if it manages a route at all) no canary route is left -/
+def Restored (s : JS) : Prop :=
+  ∃ t, s.tr = some t ∧ t.phase = .healthy ∧ t.holders = [] ∧ (t.hasRef = true → s.net.canaryIng = none)
+
+theorem ageExp_eq (e : Exp) : ageExp e = RV.Props.Traffic.tickE e := by cases e <;> rfl
+theorem tickMem_eq (m : Mem) : tickMem m = RV.Props.Traffic.tick m := by
+  unfold tickMem RV.Props.Traffic.tick; simp [ageExp_eq]
+
+theorem core_unheld_progressing (t : TRO) (n : Net) (m : Mem) (hd : t.deleting = false) (hp : t.phase = .progressing)
+    (hh : t.holders = []) :
+    (trCore t n m).t.phase = .finalizing ∧ (trCore t n m).net = n ∧ (trCore t n m).mem = m := by
+  obtain ⟨del, hf, hs, ph, wt, gr, hr⟩ := t
+  simp only at hd hp hh; subst hd; subst hp; subst hh
+  cases hf <;> simp [trCore]
+
+theorem core_finalizing (t : TRO) (n : Net) (m : Mem) (hd : t.deleting = false) (hp : t.phase = .finalizing) :
+    (trCore t n m).net = (finalisingTrafficRouting (tctx t) n m).net ∧ (trCore t n m).mem = (finalisingTrafficRouting (tctx t) n m).mem ∧
+    ((finalisingTrafficRouting (tctx t) n m).err = false → (finalisingTrafficRouting (tctx t) n m).done = true → (trCore t n m).t.phase = .healthy) ∧
+    ((finalisingTrafficRouting (tctx t) n m).err = false → (finalisingTrafficRouting (tctx t) n m).done = false → (trCore t n m).t.phase = .finalizing) := by
+  obtain ⟨del, hf, hs, ph, wt, gr, hr⟩ := t
+  simp only at hd hp; subst hd; subst hp
+  have hc : ∀ hf', tctx ⟨false, hf', hs, .finalizing, wt, gr, hr⟩ = tctx ⟨false, hf, hs, .finalizing, wt, gr, hr⟩ := fun _ => rfl
+  cases hf
+  all_goals
+    simp only [trCore, hc, Bool.false_eq_true, not_false_eq_true, not_true_eq_false, and_self, and_false, if_true, if_false, reduceCtorEq]
+    split
+    · rename_i he; simp [he]
+    · split
+      · rename_i he hdn; simp_all
+      · rename_i he hdn; simp_all
+
+theorem run_quiet_succ (s s1 s2 s' : JS) (k : Nat) (h1 : step s .tick = some s1) (h2 : step s1 .tr = some s2) (h3 : run s2 (quiet k) = some s') :
+    run s (quiet (k + 1)) = some s' := by
+  show run s (.tick :: .tr :: quiet k) = some s'
+  unfold run; rw [h1]; dsimp only
+  unfold run; rw [h2]; dsimp only
+  exact h3
+
+theorem step_tick (s : JS) :
+    step s .tick = some { s with mem := tickMem s.mem, ros := s.ros.map fun e => { e with w := { e.w with ro := tickRo e.w.ro } } } := rfl
+
+/-- one quiet round of an unheld, live TrafficRouting in phase Finalizing -/
+theorem fin_round (s : JS) (t : TRO) (htr : s.tr = some t) (hh : t.holders = []) (hd : t.deleting = false) (hp : t.phase = .finalizing) :
+    ∃ s2 t2, run s (quiet 1) = some s2 ∧ s2.tr = some t2 ∧ t2.holders = [] ∧ t2.deleting = false ∧ tctx t2 = tctx t ∧ t2.hasRef = t.hasRef ∧
+      s2.net = (finalisingTrafficRouting (tctx t) s.net (tickMem s.mem)).net ∧
+      s2.mem = (finalisingTrafficRouting (tctx t) s.net (tickMem s.mem)).mem ∧
+      ((finalisingTrafficRouting (tctx t) s.net (tickMem s.mem)).err = false → (finalisingTrafficRouting (tctx t) s.net (tickMem s.mem)).done = true → t2.phase = .healthy) ∧
+      ((finalisingTrafficRouting (tctx t) s.net (tickMem s.mem)).err = false → (finalisingTrafficRouting (tctx t) s.net (tickMem s.mem)).done = false → t2.phase = .finalizing) := by
+  obtain ⟨f1, f2, f3, f4, f5⟩ := core_frame t s.net (tickMem s.mem)
+  obtain ⟨c1, c2, c3, c4⟩ := core_finalizing t s.net (tickMem s.mem) hd hp
+  let s1 : JS := { s with mem := tickMem s.mem, ros := s.ros.map fun e => { e with w := { e.w with ro := tickRo e.w.ro } } }
+  have h2 := step_tr s1 t htr
+  refine ⟨_, (trCore t s.net (tickMem s.mem)).t, run_quiet_succ s s1 _ _ 0 (step_tick s) h2 rfl, ?_, f1.trans hh, f2.trans hd, ?_, f5, c1, c2, c3, c4⟩
+  · exact stored_live _ (f2.trans hd)
+  · unfold tctx; rw [f3, f4, f5]
+
+theorem leftover_le (c : TCtx) (n : Net) (m : Mem) : RV.Props.Traffic.leftover c n m ≤ 9 := by
+  unfold RV.Props.Traffic.leftover
+  have := RV.Props.Traffic.expW_le_one m.restoreService
+  have := RV.Props.Traffic.expW_le_one m.restoreGateway
+  have := RV.Props.Traffic.expW_le_one m.removeCanaryService
+  split <;> split <;> split <;> omega
+
+theorem run_append (l1 l2 : List Label) : ∀ (s s1 s' : JS), run s l1 = some s1 → run s1 l2 = some s' → run s (l1 ++ l2) = some s' := by
+  induction l1 with
+  | nil => intro s s1 s' h1 h2; cases h1; exact h2
+  | cons l ls ih =>
+    intro s s1 s' h1 h2
+    show run s (l :: (ls ++ l2)) = some s'
+    unfold run at h1
+    split at h1
+    · cases h1
+    · rename_i sa ha
+      unfold run
+      rw [ha]; dsimp only
+      exact ih sa s1 s' h1 h2
+
+theorem quiet_add (a b : Nat) : quiet (a + b) = quiet a ++ quiet b := by
+  induction a with
+  | zero => simp [quiet]
+  | succ a ih =>
+    rw [Nat.add_right_comm]
+    show Label.tick :: Label.tr :: quiet (a + b) = Label.tick :: Label.tr :: quiet a ++ quiet b
+    rw [ih]; rfl
+
+theorem run_append_quiet (s s1 s' : JS) (a b : Nat) (h1 : run s (quiet a) = some s1) (h2 : run s1 (quiet b) = some s') :
+    run s (quiet (a + b)) = some s' := by
+  rw [quiet_add]; exact run_append _ _ s s1 s' h1 h2
+
+/-- the clean-up of an unheld TrafficRouting converges: from phase Finalizing, at most `leftover + 1` quiet rounds -/
+theorem finalizing_converges (b : Nat) : ∀ (s : JS) (t : TRO), s.tr = some t → t.holders = [] → t.deleting = false → t.phase = .finalizing →
+    (t.hasRef = true → t.grace ≠ 0 → RV.Props.Traffic.leftover (tctx t) s.net (tickMem s.mem) ≤ b) →
+    ∃ k s', k ≤ b + 1 ∧ run s (quiet k) = some s' ∧ Restored s' := by
+  induction b with
+  | zero =>
+    intro s t htr hh hd hp hb
+    obtain ⟨s2, t2, hrun, htr2, hh2, hd2, hc2, hr2, hn2, hm2, hdone, hnot⟩ := fin_round s t htr hh hd hp
+    have key : (finalisingTrafficRouting (tctx t) s.net (tickMem s.mem)).err = false ∧ (finalisingTrafficRouting (tctx t) s.net (tickMem s.mem)).done = true := by
+      by_cases href : t.hasRef = true
+      · by_cases hg : t.grace = 0
+        · have := RV.Props.Traffic.finalising_immediate (tctx t) s.net (tickMem s.mem) hg
+          exact ⟨this.2, this.1⟩
+        · obtain ⟨e1, e2⟩ := RV.Props.Traffic.fin_round_progress (tctx t) s.net (tickMem s.mem) href hg (by rw [tickMem_eq]; exact RV.Props.Traffic.tick_noFresh _)
+          refine ⟨e1, ?_⟩
+          rcases e2 with e2 | e2
+          · exact e2
+          · have := hb href hg; omega
+      · unfold finalisingTrafficRouting; simp [tctx, href]
+    refine ⟨1, s2, Nat.le_refl _, hrun, t2, htr2, hdone key.1 key.2, hh2, fun href2 => ?_⟩
+    rw [hn2]
+    exact RV.Props.TRSM.finalising_done_clean (tctx t) s.net (tickMem s.mem) (show t.hasRef = true by rw [← hr2]; exact href2) key.2
+  | succ b ih =>
+    intro s t htr hh hd hp hb
+    obtain ⟨s2, t2, hrun, htr2, hh2, hd2, hc2, hr2, hn2, hm2, hdone, hnot⟩ := fin_round s t htr hh hd hp
+    by_cases hfast : (finalisingTrafficRouting (tctx t) s.net (tickMem s.mem)).err = false ∧ (finalisingTrafficRouting (tctx t) s.net (tickMem s.mem)).done = true
+    · refine ⟨1, s2, by omega, hrun, t2, htr2, hdone hfast.1 hfast.2, hh2, fun href2 => ?_⟩
+      rw [hn2]
+      exact RV.Props.TRSM.finalising_done_clean (tctx t) s.net (tickMem s.mem) (show t.hasRef = true by rw [← hr2]; exact href2) hfast.2
+    · -- not done yet: with a ref and a grace period (otherwise the first call is done)
+      have href : t.hasRef = true := by
+        cases hx : t.hasRef with
+        | true => rfl
+        | false => exact absurd (by unfold finalisingTrafficRouting; simp [tctx, hx]) hfast
+      have hg : t.grace ≠ 0 := by
+        intro hc
+        have := RV.Props.Traffic.finalising_immediate (tctx t) s.net (tickMem s.mem) hc
+        exact hfast ⟨this.2, this.1⟩
+      obtain ⟨e1, e2⟩ := RV.Props.Traffic.fin_round_progress (tctx t) s.net (tickMem s.mem) href hg (by rw [tickMem_eq]; exact RV.Props.Traffic.tick_noFresh _)
+      have hnd : (finalisingTrafficRouting (tctx t) s.net (tickMem s.mem)).done = false := by
+        cases hx : (finalisingTrafficRouting (tctx t) s.net (tickMem s.mem)).done with
+        | false => rfl
+        | true => exact absurd ⟨e1, hx⟩ hfast
+      have hlt : RV.Props.Traffic.leftover (tctx t2) s2.net (tickMem s2.mem) ≤ b := by
+        rcases e2 with e2 | e2
+        · rw [hnd] at e2; cases e2
+        · have hb' := hb href hg
+          rw [hc2, hn2, hm2]
+          simp only [tickMem_eq] at hb' e2 ⊢
+          omega
+      obtain ⟨k, s', hk, hrun', hrest⟩ := ih s2 t2 htr2 hh2 hd2 (hnot e1 hnd) (fun _ _ => hlt)
+      exact ⟨1 + k, s', by omega, run_append_quiet s s2 s' 1 k hrun hrun', hrest⟩
+
+/-- **1b. `released_means_restored` (C05 / C03)** — for every joint state in which the last holder has let go (a live
+    TrafficRouting in phase Progressing or Finalizing without a progressing finalizer; any network, any grace memory, any
+    rollouts around it): within at most 11 fault-free rounds (the clock moves, the TrafficRouting is reconciled — the
+    round bound is `leftover ≤ 9` of `RV.Props.Traffic.finalising_converges`, plus the round that enters Finalizing and
+    the round that reports) the TrafficRouting is Healthy again and the canary route is withdrawn. -/
+theorem released_means_restored (s : JS) (t : TRO) (htr : s.tr = some t) (hh : t.holders = []) (hd : t.deleting = false)
+    (hp : t.phase = .progressing ∨ t.phase = .finalizing) :
+    ∃ k s', k ≤ 11 ∧ run s (quiet k) = some s' ∧ Restored s' := by
+  rcases hp with hp | hp
+  · -- one round enters Finalizing
+    obtain ⟨f1, f2, f3, f4, f5⟩ := core_frame t s.net (tickMem s.mem)
+    obtain ⟨c1, c2, c3⟩ := core_unheld_progressing t s.net (tickMem s.mem) hd hp hh
+    let s1 : JS := { s with mem := tickMem s.mem, ros := s.ros.map fun e => { e with w := { e.w with ro := tickRo e.w.ro } } }
+    have h2 := step_tr s1 t htr
+    have hrun1 : run s (quiet 1) = some _ := run_quiet_succ s s1 _ _ 0 (step_tick s) h2 rfl
+    obtain ⟨k, s', hk, hrun', hrest⟩ := finalizing_converges 9
+      { s1 with tr := stored (trCore t s.net (tickMem s.mem)).t, net := (trCore t s.net (tickMem s.mem)).net, mem := (trCore t s.net (tickMem s.mem)).mem }
+      (trCore t s.net (tickMem s.mem)).t (stored_live _ (f2.trans hd))
+      (f1.trans hh) (f2.trans hd) c1 (fun _ _ => leftover_le _ _ _)
+    exact ⟨1 + k, s', by omega, run_append_quiet s _ s' 1 k hrun1 hrun', hrest⟩
+  · obtain ⟨k, s', hk, hrun', hrest⟩ := finalizing_converges 9 s t htr hh hd hp (fun _ _ => leftover_le _ _ _)
+    exact ⟨k, s', by omega, hrun', hrest⟩
+
 end RV.Props.TRBind
